@@ -48,7 +48,7 @@ func TestC18(t *testing.T) {
 	col := evd.New("C18", cfg)
 	defer col.Flush()
 	r := rand.New(rand.NewSource(cfg.Seed*101 + int64(cfg.Shard)))
-	trials := cfg.N(6000, 200000)
+	trials := cfg.N(6000, 2000000)
 	counts := []int64{0, 1, 2, 7, 64, math.MaxInt64}
 	callers := []int{1, 2, 10, 64}
 	var contended, calls int64
